@@ -1,5 +1,5 @@
 (* Props/C06.v — only statements, `exact` proofs and Print Assumptions. *)
-From PV Require Import Lib.Base Gen.StatusTable Model.Status Proofs.Status_lemmas.
+From PV Require Import Lib.Base Gen.StatusTable Model.Status Proofs.Status_lemmas Model.StatusNear Proofs.StatusNear_lemmas.
 Open Scope N_scope.
 
 (* The documented mapping second-level status code -> error class (SAML core
@@ -107,6 +107,120 @@ Proof.
   - exact request_verify_version.
 Qed.
 Print Assumptions C06_version.
+
+(* ---- near-miss status codes ------------------------------------------------
+   The model compares codes with exact string equality.  Any top-level code
+   other than the literal specification URN of Success - in particular every
+   proper substring and every proper superstring of it, every string of another
+   length - is not Success, so it can never yield an accepted response. *)
+Theorem C06_only_the_success_urn :
+  forall (A : Type) (i : verify_in) (rest : result (option A)) st v sub,
+    status i = Some st -> st_code st = Some (Code v sub) ->
+    v <> Some (s2l "urn:oasis:names:tc:SAML:2.0:status:Success") ->
+    (forall a, parse_tail (authn_verify i rest) <> Ok a) /\ status_verify i <> Ok (Some tt).
+Proof.
+  intros A i rest st v sub Hs Hc Hv.
+  apply (C06_non_success_never_accepted A i rest st v sub Hs Hc).
+  apply is_success_false_iff. exact Hv.
+Qed.
+Print Assumptions C06_only_the_success_urn.
+
+Theorem C06_success_iff_exact_urn :
+  (forall v, is_success v = true <-> v = Some SUCCESS_URN) /\
+  (forall x, x <> SUCCESS_URN -> is_success (Some x) = false) /\
+  (forall x, List.length x <> 42%nat -> is_success (Some x) = false).
+Proof.
+  split; [|split].
+  - intros v. rewrite <- success_urn_is_constant. exact (is_success_true_iff v).
+  - exact other_code_not_success.
+  - exact length_differs_not_success.
+Qed.
+Print Assumptions C06_success_iff_exact_urn.
+
+(* a proper substring is strictly shorter, hence different: `proper` may be read either way *)
+Theorem C06_proper_substring_not_success :
+  forall x, substring x SUCCESS_URN ->
+    (x <> SUCCESS_URN <-> (List.length x < List.length SUCCESS_URN)%nat) /\
+    (x <> SUCCESS_URN -> is_success (Some x) = false).
+Proof.
+  intros x Hsub. split; [split|].
+  - exact (substring_proper_shorter x SUCCESS_URN Hsub).
+  - intros Hl ->. exact (PeanoNat.Nat.lt_irrefl _ Hl).
+  - exact (other_code_not_success x).
+Qed.
+Print Assumptions C06_proper_substring_not_success.
+
+(* every generated near-miss (one character dropped / inserted / replaced / case
+   changed, proper prefixes and suffixes with the empty string, white space around)
+   of ANY non-empty string differs from it; for the Success URN: refused, with
+   exactly the class of the second level when the earlier checks pass *)
+Theorem C06_near_misses_differ :
+  forall s x, s <> [] -> In x (near_misses s) -> x <> s.
+Proof. exact near_misses_neq. Qed.
+Print Assumptions C06_near_misses_differ.
+
+Theorem C06_near_miss_top_never_accepted :
+  forall (A : Type) (i : verify_in) (rest : result (option A)) st x sub,
+    In x (near_misses SUCCESS_URN) ->
+    status i = Some st -> st_code st = Some (Code (Some x) sub) ->
+    ((forall a, parse_tail (authn_verify i rest) <> Ok a) /\ status_verify i <> Ok (Some tt)) /\
+    (id_mismatch i = false -> version_is_20 (version i) = true ->
+     (asynchop i && negb (dest_ok i)) = false -> issue_ok i = Ok true ->
+     parse_tail (authn_verify i rest) = Err (class_for status_table sub)).
+Proof.
+  intros A i rest st x sub Hin Hs Hc.
+  pose proof (near_miss_of_success_not_success x Hin) as Hv. split.
+  - exact (C06_non_success_never_accepted A i rest st (Some x) sub Hs Hc Hv).
+  - intros H1 H2 H3 H4. exact (C06_exact_class A i rest st (Some x) sub H1 H2 H3 H4 Hs Hc Hv).
+Qed.
+Print Assumptions C06_near_miss_top_never_accepted.
+
+(* second level: a code that is not one of the 21 documented ones gets the generic
+   error (KeyError) from today's table, never one of the specific classes; and no
+   generated near-miss of a documented code is itself a documented code *)
+Theorem C06_unlisted_second_level_generic :
+  forall k sub, lookup k documented = None ->
+    class_for status_table (Some (Code (Some k) sub)) = s2l "KeyError" /\
+    mem_str (s2l "KeyError") (map snd documented) = false.
+Proof.
+  intros k sub H. split; [|vm_compute; reflexivity].
+  apply class_for_unlisted. destruct (lookup k status_table) as [c|] eqn:E; [|reflexivity].
+  apply lookup_some_in in E.
+  destruct C06_table_matches as [Hm _]. unfold same_mapping in Hm.
+  apply andb_true_iff in Hm as [Hm _]. rewrite forallb_forall in Hm.
+  specialize (Hm _ E). cbn [fst snd] in Hm. rewrite H in Hm. discriminate.
+Qed.
+Print Assumptions C06_unlisted_second_level_generic.
+
+Theorem C06_near_miss_second_level_unlisted :
+  forall k x, In k (map fst documented) -> In x (near_misses k) ->
+    lookup x documented = None /\ x <> SUCCESS_URN.
+Proof.
+  intros k x Hk Hx.
+  assert (forallb (fun k => forallb (fun x => match lookup x documented with None => negb (str_eqb x SUCCESS_URN) | Some _ => false end)
+                                    (near_misses k)) (map fst documented) = true) as Hall by (vm_compute; reflexivity).
+  rewrite forallb_forall in Hall. specialize (Hall k Hk). rewrite forallb_forall in Hall. specialize (Hall x Hx).
+  destruct (lookup x documented); [discriminate|]. split; [reflexivity|].
+  apply str_eqb_neq. now apply negb_true_iff.
+Qed.
+Print Assumptions C06_near_miss_second_level_unlisted.
+
+(* non-vacuity: the generated set for the Success URN is large and contains the
+   strings the harness feeds to the real code (a prefix at a colon, the bare name,
+   the empty string, a trailing blank) *)
+Example C06_near_miss_witness :
+  Nat.ltb 500 (List.length (near_misses SUCCESS_URN)) = true /\
+  In (s2l "urn:oasis:names:tc:SAML:2.0:status:") (near_misses SUCCESS_URN) /\
+  In (s2l "Success") (near_misses SUCCESS_URN) /\ In [] (near_misses SUCCESS_URN) /\
+  In (s2l "urn:oasis:names:tc:SAML:2.0:status:Success ") (near_misses SUCCESS_URN) /\
+  In (s2l "urn:oasis:names:tc:SAML:2.0:status:success") (near_misses SUCCESS_URN) /\
+  refused_all status_table None (near_misses SUCCESS_URN) = true.
+Proof.
+  assert (forall x l, mem_str x l = true -> In x l) as M by (intros x l; apply mem_str_In).
+  split; [vm_compute; reflexivity|].
+  do 5 (split; [apply M; vm_compute; reflexivity|]). vm_compute. reflexivity.
+Qed.
+Print Assumptions C06_near_miss_witness.
 
 (* non-vacuity: a Responder/AuthnFailed status with everything else fine *)
 Example C06_witness :
